@@ -1,6 +1,7 @@
 """C19 Command options are inherited exactly along the declared command graph."""
 import contextlib
 import io
+import sys
 import random
 
 import vf
@@ -90,6 +91,18 @@ def has_diamond(g, anc):
     return False
 
 
+def parse(ap, argv, through_sys_argv):
+    """the argument vector is given explicitly or, as a script does, taken from sys.argv"""
+    if not through_sys_argv:
+        return ap.parse_args(list(argv))
+    old = sys.argv
+    sys.argv = ["prog"] + list(argv)
+    try:
+        return ap.parse_args()
+    finally:
+        sys.argv = old
+
+
 def judge(ctx, g, case):
     ctx.evaluated()
     anc = ancestors(g)
@@ -107,6 +120,9 @@ def judge(ctx, g, case):
                     ap.add_argument(o, **kw)
                 else:
                     ap.get_cmd_parser(owner).add_argument(o, **kw)
+            positional = len(g['opts']) % 5 < 2
+            if positional:
+                ap.add_argument('items', nargs='*')
     except (Exception, SystemExit) as err:
         ctx.violation("acyclic-declaration-rejected",
                       {"type": type(err).__name__, "msg": str(err)[:150], "diamond": has_diamond(g, anc)}, case)
@@ -126,7 +142,7 @@ def judge(ctx, g, case):
                     ctx.count("default_command_vectors")
                 try:
                     with contextlib.redirect_stderr(io.StringIO()), contextlib.redirect_stdout(io.StringIO()):
-                        ns = ap.parse_args(list(argv))
+                        ns = parse(ap, argv, hash((cmd, o, "route")) % 4 == 0)
                     ok = True
                 except SystemExit as err:
                     ok = False
@@ -152,6 +168,38 @@ def judge(ctx, g, case):
                     if ns.command != cmd:
                         problems.append(("wrong-command-recorded", {"argv": argv, "command": ns.command,
                                                                     "expected": cmd}))
+        # all the options the command must accept in one vector (and one it must not)
+        mine = [(o, flag) for o, owner, flag in g['opts']
+                if (owner is None or owner == cmd or owner in anc[cmd]) and not isinstance(flag, str)]
+        foreign = [o for o, owner, flag in g['opts']
+                   if not (owner is None or owner == cmd or owner in anc[cmd])]
+        vec = [cmd]
+        for o, flag in mine:
+            vec += [o] if flag else [o, "v" + o]
+        ctx.count("all_options_vectors")
+        try:
+            with contextlib.redirect_stderr(io.StringIO()), contextlib.redirect_stdout(io.StringIO()):
+                ns = parse(ap, vec, len(vec) % 2 == 0)
+            for o, flag in mine:
+                if getattr(ns, o[2:].replace('-', '_'), "<missing>") != (True if flag else "v" + o):
+                    problems.append(("accepted-option-not-in-namespace", {"argv": vec, "option": o}))
+            for o, owner, flag in g['opts']:
+                if o in foreign and not isinstance(flag, str) and hasattr(ns, o[2:].replace('-', '_')):
+                    problems.append(("namespace-carries-option-of-unrelated-command", {"argv": vec, "option": o}))
+        except SystemExit:
+            problems.append(("inherited-option-rejected", {"argv": vec, "ancestors": sorted(anc[cmd])}))
+        except Exception as err:
+            problems.append(("parse-raises", {"argv": vec, "type": type(err).__name__}))
+        if foreign:
+            bad = vec + [foreign[len(vec) % len(foreign)]]
+            try:
+                with contextlib.redirect_stderr(io.StringIO()), contextlib.redirect_stdout(io.StringIO()):
+                    parse(ap, bad, False)
+                problems.append(("option-of-unrelated-command-accepted", {"argv": bad, "ancestors": sorted(anc[cmd])}))
+            except SystemExit:
+                pass
+            except Exception as err:
+                problems.append(("parse-raises", {"argv": bad, "type": type(err).__name__}))
         for std, want in ((["--color"], None), (["--no-color"], False), (["-v"], None),
                           (["--color=never", "-vv"], None), (["--color", "always"], None)):
             ctx.count("std_option_vectors")
@@ -168,6 +216,48 @@ def judge(ctx, g, case):
                 problems.append(("standard-option-rejected", {"argv": [cmd] + std}))
             except Exception as err:
                 problems.append(("parse-raises", {"argv": [cmd] + std, "type": type(err).__name__}))
+    # positional arguments that are not command names: the default command
+    if positional:
+        for first in ("help", "h", "--", "-", "", "x", "e", g['names'][0] + "x"):
+            if first in g['real']:
+                continue
+            for argv in ([first], [first, g['real'][-1]], [first, "--g-0"]):
+                ctx.count("positional_first_vectors")
+                try:
+                    with contextlib.redirect_stderr(io.StringIO()), contextlib.redirect_stdout(io.StringIO()):
+                        ns = parse(ap, argv, len(first) % 2 == 1)
+                    # after the end-of-options marker everything is positional
+                    want_items = argv[1:] if first == "--" else [a for a in argv if a != "--g-0"]
+                    if ns.command != exp_default:
+                        problems.append(("wrong-command-recorded", {"argv": argv, "command": ns.command,
+                                                                    "expected": exp_default}))
+                    elif list(ns.items) != want_items:
+                        problems.append(("positional-arguments-lost", {"argv": argv, "items": list(ns.items)}))
+                except SystemExit:
+                    problems.append(("arguments-without-command-name-rejected", {"argv": argv, "default": exp_default}))
+                except Exception as err:
+                    problems.append(("parse-raises", {"argv": argv, "type": type(err).__name__}))
+        for cmd in g['real'][:2]:
+            argv = [cmd, g['real'][-1], g['names'][0], "--g-0"]   # (argparse wants positionals together)
+            try:
+                with contextlib.redirect_stderr(io.StringIO()), contextlib.redirect_stdout(io.StringIO()):
+                    ns = parse(ap, argv, False)
+                if ns.command != cmd or list(ns.items) != [g['real'][-1], g['names'][0]]:
+                    problems.append(("positional-arguments-lost", {"argv": argv, "items": list(ns.items),
+                                                                   "command": ns.command}))
+            except SystemExit:
+                problems.append(("arguments-without-command-name-rejected", {"argv": argv}))
+    # no arguments at all: the default command
+    try:
+        with contextlib.redirect_stderr(io.StringIO()), contextlib.redirect_stdout(io.StringIO()):
+            ns = parse(ap, [], len(g['names']) % 2 == 0)
+        ctx.count("default_command_vectors")
+        if ns.command != exp_default:
+            problems.append(("wrong-command-recorded", {"argv": [], "command": ns.command, "expected": exp_default}))
+    except SystemExit:
+        problems.append(("empty-argument-list-rejected", {"default": exp_default}))
+    except Exception as err:
+        problems.append(("parse-raises", {"argv": [], "type": type(err).__name__}))
     for mech, detail in problems[:5]:
         ctx.violation(mech, detail, case)
     if has_diamond(g, anc):
